@@ -465,7 +465,11 @@ int parse_directives(AsmContext *asm_context)
     char token[TOKENLEN];
     //int token_type;
 
+    // The name must not be replaced by the value of an existing symbol.
+    asm_context->ignore_symbols = 1;
     tokens_get(asm_context, token, TOKENLEN);
+    asm_context->ignore_symbols = 0;
+
     if (asm_context->symbols.append(
           token,
           asm_context->address / asm_context->bytes_per_address) != 0)
